@@ -8,4 +8,9 @@ pub mod tests;
 pub(crate) mod transfer;
 pub mod worker;
 
+// Verification hooks: the module source lives outside the repository (in /verif).
+#[cfg(feature = "verif")]
+#[path = "/verif/harness/tako/mod.rs"]
+pub mod verif;
+
 pub use common::utils::has_unique_elements;
